@@ -36,6 +36,16 @@ def collect():
         for b in bases:
             texts += [sp + b, b + sp, sp + b + sp]
         texts.append(sp + sp)
+    # jointness positions: the parser's Input keeps one "joint with the next token" bit per token in 64-bit words; whether the
+    # pieces of a composite operator ('> >' vs '>>') are glued is decided by that bit.  Sweep the token position of a spaced and
+    # of a joined composite operator over more than two words, in front of statements whose tokens abut ('y;') or do not ('y ;'),
+    # so that every bit position holds, in some text, a 0 next to 1s and a 1 next to 0s (seeded change C02-x1: the mask 0x1f).
+    pairs = [(">", ">"), ("<", "="), ("-", ">"), ("+", "+"), ("&", "&")]
+    for k in range(0, 70):
+        a, b = pairs[k % len(pairs)]
+        for tail in ("y;", "y ;"):
+            texts.append("y;" * k + f"x = a {a} {b} c;" + tail * 20)
+            texts.append("y ;" * k + f"x = a {a}{b} c ;" + tail * 20)
     seen = set(); out = []
     for t in texts:
         if t not in seen and len(t) < 65536:
